@@ -536,7 +536,7 @@ func verifH_NewStream() {
 		verifAssert(!still, "C14.failed-start-leaves-no-table-entry")
 		verifDrain()
 		// the peer never saw a new_stream for it: nothing else may be emitted for that id
-		verifAssert(len(car.sent) == 0, "C03+C08+C13.no-frame-for-an-rpc-that-never-started")
+		verifAssert(len(car.sent) == 0, "C03+C07+C08+C13.no-frame-for-an-rpc-that-never-started")
 		verifAssert(verifLiveGoroutines() == 0, "C14.failed-start-leaves-no-goroutine")
 		return
 	}
